@@ -75,6 +75,17 @@ def session_vs_model(rep, model, sessions):
             bad = next(x for x in snaps if not isinstance(x, dict) or "exc" in x)
             rep.fail("snapshot-raised", "reading the index / work tree back raised: %r" % (bad,), case)
             continue
+        # the hypothesis of the theorems, on every observed state: an index entry whose recorded signature is what lstat
+        # gives now (so that the file is not read again) describes the content that is there
+        for k, sn in enumerate(snaps):
+            for p, (mo, h, same) in sn["index"].items():
+                wk = sn["work"].get(p)
+                if same and wk is not None and not wk[2] and wk[1] != h:
+                    rep.fail("stat-cache-discipline-broken", "after step %d the index entry of %r carries the stat signature of the file on disk but another "
+                             "content id (%s, the file holds %s): status will not read the file and call it unchanged" % (
+                                 k - 1, bytes.fromhex(p).decode("latin1"), h[:8], wk[1][:8]),
+                             dict(case, step=k - 1, edit=(r["steps"][k - 1]["edit"][:1] if k else None)))
+                    break
         universe = sorted({p for sn in snaps for k in ("head", "index", "work") for p in sn[k]})
         raw = [bytes.fromhex(p) for p in universe]
         df = any(a != b and b.startswith(a + b"/") for a in raw for b in raw)
@@ -172,6 +183,12 @@ def run(rep):
     for k in range(40 if not thorough else 800):
         t0 = gen_listing(rng, rng.randrange(2, 8))
         reqs.append({"fn": "session", "trees": [t0], "edits": gen_edits(rng, t0, rng.randrange(1, 9)), "switches": []})
+    # directed: the index operations right after a modification that keeps the size (what a signature taken from the file
+    # on disk, instead of from what was hashed, would hide)
+    for tail in (["unstage"], ["stage", "unstage"], ["stage"], ["rm-cached"], ["stage-all", "unstage"]):
+        t0 = [[hx(b"f"), "f", 1, 10], [hx(b"g"), "x", 2, 100]]
+        eds = [["modify", hx(b"f"), 1500, 10]] + [[k, hx(b"f")] if k != "stage-all" else ["stage-all"] for k in tail] + [["modify", hx(b"f"), 1501, 10]]
+        reqs.append({"fn": "session", "trees": [t0], "edits": eds, "switches": []})
     for k in range(12 if not thorough else 200):
         fam = [gen_listing(rng, rng.randrange(2, 7)) for _ in range(3)]
         # make the family collide: a name that is a file in one tree and a directory / symlink in another
